@@ -450,7 +450,9 @@ def tmReport (l : Led) (id : TxId) (typ : Nat) : Except String (Led × StatusCha
             let cur := g'.state
             let others := g'.children.filter (fun p => p.1 ≠ id)
             let failNow := prev == .begin && cur == .beginFailure
-            let nd := if failNow then (others.filter (fun p => p.2 == .success)).map (·.1) else []
+            -- since the `fix:` commit "tell destination chains to roll back children that had succeeded": statuses as they
+            -- were before the change (afterwards every child is BEGIN_FAILURE / FAILURE)
+            let nd := if failNow then ((g.children.filter (fun p => p.1 ≠ id)).filter (fun p => p.2 == .success)).map (·.1) else []
             let ns := others.map (·.1)
             let l2 := l1.setS (.glob gid) (some (.glob g'))
             .ok (l2, { prev := some prev, cur := cur, childIds := childIds g',
